@@ -5,6 +5,8 @@ mod castle_rights;
 pub use castle_rights::CastleRights;
 pub mod fen;
 mod iter;
+#[cfg(rustyyato_chess_verif)]
+pub use iter::MoveGen;
 pub mod raw;
 
 use std::{
